@@ -170,3 +170,21 @@ def _mk_docs(n, first, tiers, timeout):
 for _f in range(_NT):
     _mk_docs(5, _f, ("quick", "thorough"), 900)
     _mk_docs(6, _f, ("thorough",), 3400)
+
+
+# --- one document after another: a render that raised (or not) leaves nothing behind for the next (P) ---------------------------
+@symx("C04-d-documents-in-sequence", timeout=900, kind="P", functions=F_MK + ["rich/text.py:Text.render"],
+      bounds="every pair of documents (first: 1..2 tokens, second: 1..2 tokens from %r) rendered one after the other in one process "
+             "- the first may raise MarkupError with tags still open, may leave tags unclosed, or may be complete: the second document "
+             "gives the error condition, plain text and per-character effective style of the reference, as on its own" % (_TOKENS,),
+      outside="longer documents in sequence (single documents up to 5/6 tokens: C04-d-documents-*)")
+def c04_docs_sequence(e):
+    k1 = int(e.mk("ntokens1", 1, 2))
+    ks1 = [int(e.mk("a%d" % i, 0, _NT - 1)) for i in range(k1)]
+    k2 = int(e.mk("ntokens2", 1, 2))
+    ks2 = [int(e.mk("b%d" % i, 0, _NT - 1)) for i in range(k2)]
+    try:
+        render("".join(_TOKENS[k] for k in ks1), emoji=False)
+    except MarkupError:
+        pass
+    return _doc_ok(ks2)
